@@ -59,14 +59,19 @@ def parallel(fn, items, workers=WORKERS):
         return list(ex.map(lambda it: fn(*it), items))
 
 
-def level_grid(typ, thorough):
-    """(l0, la, lb): configured level and the levels SetLevel("A"/"B") switches to."""
+def level_grid(typ, thorough, native=False):
+    """(l0, la, lb): configured level and the levels SetLevel("A"/"B") switches to.
+
+    The pure-Go zstd maps levels onto four encoders (<3, 3..5, 6..9, >=10) and creating its largest one costs ~70 ms per
+    instance: its grid is sampled at the class boundaries instead of every level."""
     if typ == "null":
         return [(-1, 1, 2)]
     if typ == "lz4":
-        lv = list(range(0, 13)) if thorough else [0, 1, 3, 6, 9, 10, 12]
+        lv = list(range(0, 13))
+    elif native:
+        lv = [1, 2, 3, 5, 6, 9, 10, 19] if thorough else [1, 3, 19]
     else:
-        lv = list(range(1, 20)) if thorough else [1, 3, 6, 19]
+        lv = list(range(1, 20)) if thorough else [1, 3, 6, 10, 15, 19]
     g = [(-1, lv[0], lv[-1])]
     for i, l in enumerate(lv):
         g.append((l, lv[(i + 1) % len(lv)], lv[(i + len(lv) // 2) % len(lv)]))
@@ -100,28 +105,58 @@ def gen_behaviours(run, sc, thorough):
     return sets
 
 
+def is_core(line):
+    """Depth-2 sequences that carry the first-order information: Compress;Decompress, Compress;Close, SetLevel;Compress."""
+    names = [st["act"]["name"] for st in json.loads(line)]
+    return names in (["Compress", "Decompress"], ["Compress", "Close"], ["SetLevel", "Compress"])
+
+
 def replay_tasks(run, sets, builds, thorough):
-    """One task = (build, type, level config, behaviour set, chunk)."""
-    tasks = []
+    """One task = (build, type, level config, behaviour set, first index, behaviours).
+
+    core2   depth-2 sequences Compress;Decompress / Compress;Close / SetLevel;Compress over the full shape space
+            (9 data classes x 5 scratch shapes x decompress shapes x level switches): EVERY level of the grid
+    rest2   all other depth-2 sequences over the full shape space: levels rotate per chunk of 100 and with the seed
+            (quick: one level per chunk, stateless types lz4/null every second chunk; thorough: four levels per chunk)
+    deeper  (reduced shape space depth 3/4, simulated full shape space): one level per chunk, rotating; quick: every type
+            takes every second chunk; thorough: zstd/cgo every chunk, zstd/native every fourth, stateless types every third
+    """
+    plan = {}
     for sname, lines in sets.items():
-        chunks = [(i, lines[i:i + CHUNK]) for i in range(0, len(lines), CHUNK)]
+        if sname == "full2":
+            plan["core2"] = ([ln for ln in lines if is_core(ln)], 75, "all")
+            plan["rest2"] = ([ln for ln in lines if not is_core(ln)], 100, "rot")
+        else:
+            plan[sname] = (lines, 100 if not thorough else 200, "deep")
+    tasks = []
+    for sname, (lines, csize, mode) in plan.items():
+        chunks = [(i, lines[i:i + csize]) for i in range(0, len(lines), csize)]
         for bname in builds:
-            for typ in ("lz4", "zstd", "null"):
+            for ti, typ in enumerate(("lz4", "zstd", "null")):
                 # the tag builds differ from cgo only in one encoder: replay that one
                 if bname == "noliblz4" and typ != "lz4" or bname == "nolibzstd" and typ != "zstd":
                     continue
-                grid = level_grid(typ, thorough)
-                if bname in ("noliblz4", "nolibzstd"):
-                    grid = grid[::3]
+                native_zstd = typ == "zstd" and BUILDS[bname]["zstd"] == "native"
+                grid = level_grid(typ, thorough, native_zstd)
                 for ci, (base, chunk) in enumerate(chunks):
-                    if sname == "full2":
-                        cfgs = grid                                  # the full shape space meets every level
+                    rot = ci + run.seed
+                    if mode == "all":
+                        cfgs = grid if bname in ("cgo", "nocgo") else grid[rot % 3::3]
+                    elif mode == "rot":
+                        k = (2 if native_zstd else 4) if thorough and bname in ("cgo", "nocgo") else 1
+                        cfgs = [grid[(rot * k + j) % len(grid)] for j in range(min(k, len(grid)))]
+                        if not thorough and typ != "zstd" and (rot + ti) % 2:
+                            cfgs = []      # quick: the stateless types take every second chunk of the pair sequences
                     else:
-                        cfgs = [grid[(ci + run.seed) % len(grid)]]   # deeper sequences: level rotates with chunk and seed
+                        if thorough:
+                            every = 1 if typ == "zstd" and not native_zstd else 4 if native_zstd else 3
+                        else:
+                            every = 2
+                        cfgs = [grid[(rot // every) % len(grid)]] if (rot + ti) % every == 0 else []
                     for cfg in cfgs:
                         tasks.append((bname, typ, cfg, sname, base, chunk))
-    # long tasks first (native zstd is the slowest)
-    tasks.sort(key=lambda t: (t[1] != "zstd", t[0] == "cgo", t[1] != "lz4"))
+    # expensive tasks first: native zstd instances are costly to create, high levels of the C libraries are slow
+    tasks.sort(key=lambda t: -(len(t[5]) * (3 if t[1] == "zstd" else 1) * (1 + max(t[2][0], 0))))
     return tasks
 
 
@@ -136,7 +171,6 @@ def crash_desc(binding, typ, impl, act):
     d = {"binding": binding, "type": typ, "impl": impl, "op": act.get("name"), "field": "crash"}
     if act.get("name") == "Compress":
         d["data"] = act.get("d")
-        d["scratch"] = act.get("s")
         d["scratch_nonempty"] = act.get("s") in ("lenNcapBig", "lenNcapSmall")
     return d
 
@@ -263,7 +297,7 @@ def main():
             run.drift.append({"what": dk, "behaviours": cnt})
 
         # negative control of the replay: a corrupted expectation must be rejected
-        t0 = ("cgo", "lz4", (-1, 1, 9), "full2", 0, sets["full2"][:40])
+        t0 = ("cgo", "lz4", (-1, 1, 9), "full2", 0, [ln for ln in sets["full2"] if '"empty"' not in ln][:40])
         _, outs, summ = run_replay(vhs, run.seed, t0, sc, corrupt=17)
         bad = [o for o in outs if o.get("ok") is False]
         clean_before = not any(d["type"] == "lz4" and d["impl"] == "cgo" for _, d, _ in fails.values())
@@ -332,7 +366,6 @@ def main():
                 n_ = (c.get("info") or {}).get("data_len", -1)
                 d["data"] = "empty" if n_ == 0 else "b1" if n_ == 1 else "other"
                 d["scratch_nonempty"] = (c.get("info") or {}).get("scratch_len", 0) > 0
-                d.pop("scratch", None)
             x = bfails.setdefault(desc_key(d), [0, d, {"kind": "codec-trace", "build": b, "crash": c, "stderr": err,
                                                        "cmd": "vh_codec codec-drive -type %s -seed %d -traces %d -ops %d -first %d" % (t_, run.seed, ntr, nops, c["index"])}])
             x[0] += 1
@@ -368,9 +401,11 @@ def main():
         run.cov["negative_control_trace"] = "event %d with corrupted returned count rejected" % (okline + 1)
 
     run.cov["rule"] = ("F: every op sequence of depth 2 over 9 data classes x 5 scratch shapes x 2 decompress shapes x level changes x Close "
-                       "on every type x level x build; every sequence of depth %d over 3 data classes x 3 scratch shapes and simulated "
-                       "deeper ones on every type x build with rotating levels; distinct = distinct op sequences. "
-                       "B: seeded instances with lengths 0..512 KiB and arbitrary scratch len/cap" % (4 if thorough else 3))
+                       "on every type x build; Compress;Decompress / Compress;Close / SetLevel;Compress on every level of the grid "
+                       "(lz4 default,0..12; zstd cgo default,%s; zstd native default and the boundaries of its four level classes), the others on levels rotating per chunk of 100; every sequence of depth %d "
+                       "over 3 data classes x 3 scratch shapes and simulated deeper ones over the full shape space with rotating "
+                       "levels; distinct = distinct op sequences. B: seeded instances with lengths 0..512 KiB and arbitrary scratch "
+                       "len/cap" % ("1..19" if thorough else "1,3,6,10,15,19", 4 if thorough else 3))
     run.assumptions += ["byte contents of a data class are seeded samples (random / repeated pattern / low entropy / port column / "
                         "bit-packed counters / address column / constant / mixed)",
                         "Decompress is given a source that behaves like *os.File (full reads, zero-length read returns 0,nil) and "
